@@ -119,6 +119,7 @@ func (w *world) apply(op Op) {
 		}
 	case "merge":
 		if t := w.get(op.T); t != nil && t.parent != nil && t.parent.open {
+			w.retryMerge = op.N == 1
 			w.opMerge(t)
 		}
 	case "discard":
@@ -544,6 +545,18 @@ func (w *world) opMerge(c *inst) {
 		if err == nil {
 			w.fail("c03.merge", "stale-merge-accepted", "merge of a stale child (parent moved from %x to %x) was accepted", c.parentRootAtOpen, parentRoot)
 			return
+		}
+		if w.retryMerge {
+			// the caller tries again at once (a retry-on-error wrapper): the parent has still moved on
+			var err2 error
+			if w.guard("MergeMPTChanges (retry)", func() { err2 = p.mpt.MergeMPTChanges(c.mpt) }) {
+				return
+			}
+			w.stats.Inc("probe.rejected-merge-retried")
+			if err2 == nil {
+				w.fail("c03.merge", "stale-merge-accepted-on-retry", "the merge of a stale child was rejected (%v) and accepted when it was tried again", err)
+				return
+			}
 		}
 		w.closeInst(c)
 		w.postMerge(c, p, false)
